@@ -523,23 +523,31 @@ func (s *MemoryBackend) ReadUsersetTuples(
 			Object:   filter.Object,
 			Relation: filter.Relation,
 		}) && tupleUtils.GetUserTypeFromUser(t.User) == tupleUtils.UserSet {
+			if len(filter.Conditions) > 0 && !slices.Contains(filter.Conditions, t.ConditionName) {
+				continue
+			}
+
 			if len(filter.AllowedUserTypeRestrictions) == 0 { // 1.0 model.
 				matches = append(matches, t)
 				continue
 			}
 
-			// 1.1 model: see if the tuple found is of an allowed type.
+			// 1.1 model: see if the tuple found is of an allowed type. A restriction is either a
+			// userset reference (type#relation) or a typed wildcard (type:*); a tuple is returned
+			// once, however many restrictions it satisfies.
 			userType := tupleUtils.GetType(t.User)
 			_, userRelation := tupleUtils.SplitObjectRelation(t.User)
 			for _, allowedType := range filter.AllowedUserTypeRestrictions {
-				if allowedType.GetType() == userType && allowedType.GetRelation() == userRelation {
-					matches = append(matches, t)
+				if allowedType.GetType() != userType {
 					continue
 				}
-			}
-
-			if len(filter.Conditions) > 0 && !slices.Contains(filter.Conditions, t.ConditionName) {
-				continue
+				_, isRelation := allowedType.GetRelationOrWildcard().(*openfgav1.RelationReference_Relation)
+				_, isWildcard := allowedType.GetRelationOrWildcard().(*openfgav1.RelationReference_Wildcard)
+				if (isRelation && allowedType.GetRelation() == userRelation) ||
+					(isWildcard && tupleUtils.IsTypedWildcard(t.User)) {
+					matches = append(matches, t)
+					break
+				}
 			}
 		}
 	}
